@@ -177,6 +177,7 @@ def run(ctx):
                     cases.append(dict(mults=list(mv), offset=off, folds=folds, fdr=fdr, first_only=True))
             for fdr in (0.13, 0.25):
                 cases.append(dict(mults=list(mv), offset=off, folds=3, fdr=fdr, first_only=True, est="both"))
+                cases.append(dict(mults=list(mv), offset=off, folds=3, fdr=fdr, first_only=True, est="offset"))
             for files in (2,):
                 for fdr in FDRS:
                     cases.append(dict(mults=list(mv), offset=off, folds=3, fdr=fdr, first_only=True, files=files))
